@@ -25,7 +25,7 @@ static std::string demangled(const char* n)
     std::string r = (st == 0 && d) ? d : n;
     std::free(d);
     for (auto& c : r)
-        if (c == ' ')
+        if (c == ' ' || c == ':' || c == ',' || c == ';')
             c = '_';
     return r;
 }
@@ -53,7 +53,7 @@ static std::string guarded(F&& f)
     }
     catch (std::exception& e)
     {
-        return "std:" + demangled(typeid(e).name());
+        return "std." + demangled(typeid(e).name());
     }
     catch (...)
     {
@@ -104,9 +104,11 @@ struct state
     std::vector<std::pair<char, std::string>> names;
     std::set<std::string> envs;
     std::optional<no::arguments> last;
+    int last_ok = -1000;
 
     void reset()
     {
+        last_ok = -1000;
         last.reset();
         objs.clear();
         groups.clear();
@@ -214,6 +216,7 @@ int main()
         else if (c == "NEW")
         {
             st.last.reset();
+            st.last_ok = -1000;
             st.objs.clear();
             st.groups.clear();
             st.names.clear();
@@ -306,6 +309,8 @@ int main()
                  c == "RV")
         {
             int ov = std::atoi(w[1].c_str());
+            if (ov == -1)
+                ov = st.last_ok;
             auto it = st.objs.find(ov);
             if (it == st.objs.end())
             {
@@ -372,6 +377,26 @@ int main()
                 out(std::string("S ok ") + (ret == o.addr() ? "self" : "other"));
             else
                 out("S !" + e);
+        }
+        else if (c == "LASTOK")
+        {
+            int ov = std::atoi(w[1].c_str());
+            if (st.objs.count(ov))
+                st.last_ok = ov;
+            out("LK ok");
+        }
+        else if (c == "OPTALL")
+        {
+            std::string e = guarded([&] {
+                for (auto& o : st.objs)
+                {
+                    if (o.second.kind == 'o')
+                        o.second.o->optional();
+                    else if (o.second.kind == 'm')
+                        o.second.m->optional();
+                }
+            });
+            out("OA " + (e.empty() ? std::string("ok") : "!" + e));
         }
         else if (c == "ACC")
         {
